@@ -8,12 +8,16 @@ StoreS = Struct('OptionStore', 'mesonbuild.options:OptionStore', options=Dict(Ob
 OptS = Struct('UserOption', 'mesonbuild.options:UserOption', value=Obj, yielding=Bool)
 SV = "[e for e in __trace__ if e[0] == 'set_value']"
 REG.contract('C08', O, 'OptionStore.set_option', variant='store-step', region=('If', 'self.augments[key] = new_value'),
-             params={'self': StoreS, 'key': Obj, 'opt': OptS, 'new_value': Obj},
+             params={'self': StoreS, 'key': Obj, 'opt': OptS, 'new_value': Obj, 'changed': Bool},
              requires=['implies(key not in self.options, attr_subproject(key) is not None)'],
              ensures=[
                  # a per-subproject override of an option defined elsewhere: the value the user gave is what is stored — always
                  'implies(key not in self.options, key in new(self).augments and new(self).augments[key] is new_value)',
                  f'implies(key not in self.options, len({SV}) == 0)',
+                 # ... and a NEW override is reported as a change even when it equals the inherited value (else `meson configure`
+                 # does not save it and a later change of the inherited value silently changes the subproject too)
+                 "implies(key not in self.options and key not in self.augments, final('changed'))",
+                 "implies(changed, final('changed'))",
                  "implies(key not in self.options, final('old_value') is (self.augments[key] if key in self.augments else opt.value))",
                  # the option itself: validated value stored through set_value, it stops yielding
                  f'implies(key in self.options, len({SV}) == 1 and {SV}[0][1] is new_value and not new(opt).yielding)',
@@ -21,7 +25,7 @@ REG.contract('C08', O, 'OptionStore.set_option', variant='store-step', region=('
                  'forall(Obj, lambda k: implies(k is not key, (k in new(self).augments) == (k in self.augments)))',
              ],
              method_effects={'set_value': []}, opaque_attrs={'subproject': Opt(Obj)},
-             modifies=['self.augments', 'opt.yielding'], floor=8,
+             modifies=['self.augments', 'opt.yielding'], floor=10,
              note='storing step of set_option; no other key of the override table changes')
 
 REG.contract('C08', O, 'OptionStore.ensure_and_validate_key', variant='c08', trusted=True, params={'self': StoreS, 'key': Obj}, ensures=['result is key'], result=Obj, returns='key',
@@ -40,3 +44,33 @@ REG.contract('C08', O, 'OptionStore.set_from_configure_command', variant='unset-
              raises={'MesonException': 'key not in self.augments and key not in self.options'},
              opaque_attrs={'yielding': Bool, 'parent': Opt(Obj)}, modifies=['self.augments'], floor=6,
              note='-U step of `meson configure`')
+
+# ---- `meson configure` (mconf.run_impl): what is persisted, and in which order.  Conf, coredata, the introspection
+# writers and cmdline.update_cmd_line_file are effects of the ghost trace; an opaque object's truthiness is unknown.
+M = 'mesonbuild/mconf.py'
+EV = lambda n: f"[e for e in __trace__ if e[0] == '{n}']"
+FLAGS = 'truthy(attr_cmd_line_options(options))'
+NAMES = "[e[0] for e in __trace__ if e[0] in ('set_from_configure_command', 'update_cmd_line_file', 'save')]"
+REG.contract('C08', M, 'is_print_only', inline=True, trusted=True, note='inlined')
+REG.contract('C08', M, 'has_option_flags', inline=True, trusted=True, note='inlined: bool(options.cmd_line_options)')
+REG.contract('C08', M, 'run_impl', params={'options': Obj, 'builddir': Str},
+             ensures=[
+                 # -D/-U given on a valid build directory and accepted: the command line is ALWAYS recorded (whether or not a
+                 # stored value changed), after the options were accepted — --wipe re-derives the configuration from that record
+                 f"implies({FLAGS} and len({EV('print_conf')}) == 0, len({EV('update_cmd_line_file')}) == 1 and {EV('update_cmd_line_file')}[0][1] == builddir and {EV('update_cmd_line_file')}[0][2] is options)",
+                 f"implies({FLAGS} and len({EV('print_conf')}) == 0, {NAMES}[:2] == ['set_from_configure_command', 'update_cmd_line_file'])",
+                 f"implies(not {FLAGS}, len({EV('update_cmd_line_file')}) == 0 and len({EV('set_from_configure_command')}) == 0)",
+                 # coredata is saved iff something changed (or the cache was cleared)
+                 f"implies(len({EV('print_conf')}) == 0, (len({EV('save')}) == 1) == (attr_clearcache(options) or (({EV('set_from_configure_command')}[0][-1]) if len({EV('set_from_configure_command')}) == 1 else False)))",
+                 'result == 0'],
+             on_raise=[
+                 # a configure that fails (options rejected) persists nothing: no command-line record, no coredata
+                 f"implies(len([e for e in __trace__ if e[0] == 'raised' and e[1] == 'set_from_configure_command']) == 1, len({EV('update_cmd_line_file')}) == 0 and len({EV('save')}) == 0)"],
+             raises={'MesonException': 'True'}, exact_raises=False,
+             effects={'Conf': {'returns': Obj, 'raises': ['ConfException', 'MesonException']}, 'unwrap': {'returns': Obj, 'raises': []},
+                      'update_cmd_line_file': [], 'update_build_options': [], 'write_meson_info_file': []},
+             method_effects={'print_conf': ['BrokenPipeError'], 'set_from_configure_command': {'returns': Bool, 'raises': ['MesonException']}, 'clear_cache': [], 'save': []},
+             opaque_attrs={'default_values_only': Bool, 'coredata': Obj, 'build': Opt(Obj), 'cmd_line_options': Obj, 'clearcache': Bool, 'pager': Bool,
+                           'environment': Obj, 'info_dir': Str},
+             floor=6,
+             note='meson configure: an accepted -D/-U is recorded in cmd_line.txt unconditionally and after validation; a rejected one leaves cmd_line.txt and coredata untouched')
